@@ -1064,7 +1064,7 @@ class Pool:
 # --------------------------------------------------------------------------------------------
 
 def control(chk, rejected, what):
-    if not rejected and chk.violations:
+    if not rejected and chk.disagreements:
         return          # on an implementation that already disagrees a corrupted expectation may coincide with it
     chk.control(rejected, what)
 
@@ -1076,7 +1076,7 @@ def comparator_controls(chk, behs, widgets_of):
         if cand:                        # the cheapest donor: fewest figures and redraws, then fewest hook invocations
             return copy.deepcopy(min(cand, key=lambda b: (sum(h["fig"] + len(h["draw"]) for h in b["ev"]), len(b["ev"]),
                                                           json.dumps(b["cfg"], sort_keys=True))))
-        if chk.violations:
+        if chk.disagreements:
             return None
         raise common.MachineryError("no donor behaviour for a negative control")
 
@@ -1309,7 +1309,7 @@ def _run(chk, tier, seed, quick, rng, info, pool):
                 continue
             good.append(tr)
         bad = corrupt_traces(good)
-        if len(bad) < 11 and not chk.violations:
+        if len(bad) < 11 and not chk.disagreements:
             raise common.MachineryError("only %d corrupted traces could be built: %s" % (len(bad), [w for w, _ in bad]))
         info["corrupted_traces"] = [w for w, _ in bad]
         parts = {w: ([t for t in good if t["widgets"] == w], [(what, t) for what, t in bad if t["widgets"] == w])
